@@ -22,6 +22,8 @@ CALLS = {
     "B": {"types": ("ListEntitiesSensorResponse", "ListEntitiesSwitchResponse", "ListEntitiesDoneResponse"), "timeout": 10.0},
     # D overlaps B on one of the three types only (a plain single-response call)
     "D": {"types": ("ListEntitiesDoneResponse",), "timeout": 7.0},
+    # R is only ever started from inside a user message callback, while a DeviceInfoResponse is being dispatched ("reent:" configurations)
+    "R": {"types": ("DeviceInfoResponse",), "timeout": 5.0},
 }
 # device messages: name -> (message type, kwargs)
 MSGS = {
@@ -50,7 +52,7 @@ def ref_accept(call: str, mname: str) -> bool:
     t = MSGS[mname][0]
     if t not in CALLS[call]["types"]:
         return False
-    if call in ("A", "C", "D"):
+    if call in ("A", "C", "D", "R"):
         return True
     return mname not in ("LD", "LX")
 
@@ -59,7 +61,7 @@ def ref_stop(call: str, mname: str) -> bool:
     t = MSGS[mname][0]
     if t not in CALLS[call]["types"]:
         return False
-    if call in ("A", "C", "D"):
+    if call in ("A", "C", "D", "R"):
         return True
     return mname == "LD"
 
@@ -91,6 +93,32 @@ class ReqWorld(ConnWorld):
         self.loop._before_cb = self._before
         self.loop._after_cb = self._after
         self.endings: set[str] = set()
+        self.reent = False  # a user callback on DeviceInfoResponse that starts call R while the message is being dispatched
+        self.cb_registered = False
+        self.cb_unsub: Any = None
+        self.cb_seen: list[str] = []
+        self.cb_expected: list[str] = []
+        self.start_r: Any = None
+
+    def install_reent(self, start_r: Any) -> None:
+        """One user listener on DeviceInfoResponse: the first message makes it start call R from inside the dispatch, the
+        next one (once R exists) makes it unsubscribe itself from inside the dispatch."""
+        pb = env.pb()
+        self.reent = True
+        self.start_r = start_r
+
+        def cb(msg: Any) -> None:
+            self.cb_seen.append(msg.name)
+            if "R" not in self.tasks:
+                self.start_r()
+            elif self.cb_registered:
+                self.cb_registered = False
+                self.cb_unsub()
+
+        self.cb_unsub = self.conn.add_message_callback(cb, (pb.DeviceInfoResponse,))
+        self.cb_registered = True
+        self.ref_cb_registered = True
+        self.ref_r_started = False
 
     def _hook(self, s: Any) -> None:
         s.on_recv = self._on_recv
@@ -118,6 +146,15 @@ class ReqWorld(ConnWorld):
                 if ref_stop(rc.name, a):
                     rc.state = "result"
                     rc.end_time = self.loop.time()
+            if self.reent and a in ("DI", "DJ") and self.ref_cb_registered:
+                # the listener sees this message after the calls registered before it were served (or before: a set has no
+                # order, and the outcome is the same); a call it starts now gets the messages that follow, not this one
+                self.cb_expected.append(MSGS[a][1]["name"])
+                if not self.ref_r_started:
+                    self.ref_r_started = True
+                    self.ref["R"] = RefCall("R", self.loop.time())
+                else:
+                    self.ref_cb_registered = False
 
     def _ref_close(self) -> None:
         if self.closed_at is None:
@@ -158,6 +195,8 @@ class ReqHarness:
         # a transport that recycles its receive buffer, every device chunk arriving in two reads (the first read ends mid-frame)
         self.recycle = seed.startswith("recycle:")
         seed = seed.replace("recycle:", "")
+        self.reent = seed.startswith("reent:")
+        seed = seed.replace("reent:", "")
         if self.recycle:
             nd = False
         self.seed = seed
@@ -183,6 +222,8 @@ class ReqHarness:
         w.base_handlers = w.handler_table()
         w.base_waiters = w.waiters() or 0
         w.base_timers = sorted(timer_name(h) for h in w.loop.live_timers())
+        if self.reent:
+            w.install_reent(lambda: self._start(w, "R", from_callback=True))
         for c in self.seed:
             if c in CALLS:
                 self._start(w, c)
@@ -192,12 +233,16 @@ class ReqHarness:
                 self.apply(w, "m:DI+LD")
         return w
 
-    def _start(self, w: ReqWorld, name: str) -> None:
+    def _start(self, w: ReqWorld, name: str, from_callback: bool = False) -> None:
         pb = env.pb()
         spec = CALLS[name]
         types = tuple(getattr(pb, t) for t in spec["types"])
         conn = w.conn
-        w.ref[name] = RefCall(name, w.loop.time())
+        if not from_callback:  # the reference started R when the message was read
+            w.ref[name] = RefCall(name, w.loop.time())
+        elif name not in w.ref:
+            w.viol.append("C11:reent:the listener was called for a message the reference did not deliver to it")
+            w.ref[name] = RefCall(name, w.loop.time())
         if name == "B":
             req = mk("ListEntitiesRequest")
             w.spawn(name, lambda: conn.send_messages_await_response_complex((req,), b_accept, b_stop, types, spec["timeout"]))
@@ -208,7 +253,7 @@ class ReqHarness:
     def enabled(self, w: ReqWorld) -> list[Any]:
         base: list[Any] = []
         for c in CALLS:
-            if c not in w.tasks:
+            if c not in w.tasks and c != "R":
                 base.append(f"call:{c}")
         for c in w.tasks:
             if w.pending(c) and not w.ref[c].cancel_requested:
@@ -334,7 +379,11 @@ class ReqHarness:
         v = list(w.viol)
         for name in list(w.results):
             v += self._check_call(w, name)
+        if w.reent and w.cb_seen != w.cb_expected[: len(w.cb_seen)]:
+            v.append(f"C11:reent:listener saw {w.cb_seen}, reference says {w.cb_expected}")
         if not w.loop.busy():
+            if w.reent and w.cb_seen != w.cb_expected and w.conn.connection_state.name != "CLOSED":
+                v.append(f"C11:reent:listener saw {w.cb_seen}, reference says {w.cb_expected}")
             # a call whose reference has ended must have returned by the time the loop is quiet
             for name, rc in w.ref.items():
                 if rc.state != "pending" and w.pending(name):
@@ -349,6 +398,8 @@ class ReqHarness:
         table = w.handler_table()
         if table is not None and w.base_handlers is not None and not closed:
             exp = dict(w.base_handlers)
+            if w.cb_registered:
+                exp["DeviceInfoResponse"] = exp.get("DeviceInfoResponse", 0) + 1
             for n in pend:
                 for t in CALLS[n]["types"]:
                     exp[t] = exp.get(t, 0) + 1
@@ -356,7 +407,10 @@ class ReqHarness:
                 diff = {k: (table.get(k, 0), exp.get(k, 0)) for k in set(table) | set(exp) if table.get(k, 0) != exp.get(k, 0)}
                 v.append(f"C11:leftover-handler:handler table differs from baseline + outstanding calls {pend}: (actual, expected) {diff}")
         if table is not None and w.base_handlers is not None and closed:
-            extra = {k: n - w.base_handlers.get(k, 0) for k, n in table.items() if n > w.base_handlers.get(k, 0)}
+            base = dict(w.base_handlers)
+            if w.cb_registered:
+                base["DeviceInfoResponse"] = base.get("DeviceInfoResponse", 0) + 1
+            extra = {k: n - base.get(k, 0) for k, n in table.items() if n > base.get(k, 0)}
             if extra:
                 v.append(f"C11:leftover-handler:handlers left after every call ended: {extra}")
         ws = w.waiters()
@@ -401,6 +455,7 @@ class ReqHarness:
                       for n, rc in sorted(w.ref.items())),
                 tuple(tuple(x) for x in w.chunks),
                 w.forced,
+                (tuple(w.cb_seen), tuple(w.cb_expected), w.cb_registered),
             )
             return hash(fp)
         except fingerprint.CannotCanon:
@@ -421,7 +476,8 @@ def run(tier: str, seed: int) -> Result:
     q = tier == "quick"
     cfgs = [("", 4 if q else 5, 1 if q else 2), ("A", 3 if q else 5, 2), ("B", 3 if q else 5, 2), ("AB", 3 if q else 4, 1 if q else 2),
             ("AC", 3 if q else 4, 2), ("ABC", 3 if q else 4, 1 if q else 2), ("BD", 3 if q else 4, 1 if q else 2),
-            ("B.D", 3 if q else 4, 1 if q else 2), ("debug:AB", 3 if q else 4, 1 if q else 2), ("noise:AB", 3 if q else 4, 1 if q else 2), ("recycle:AB", 3 if q else 4, 1 if q else 2)]
+            ("B.D", 3 if q else 4, 1 if q else 2), ("debug:AB", 3 if q else 4, 1 if q else 2), ("noise:AB", 3 if q else 4, 1 if q else 2), ("recycle:AB", 3 if q else 4, 1 if q else 2),
+            ("reent:", 3 if q else 4, 1 if q else 2), ("reent:A", 3 if q else 4, 1 if q else 2)]
     budget = 100.0 if q else 1500.0
     t_end = time.monotonic() + budget
     per_cfg = []
